@@ -14,7 +14,8 @@ TECHNIQUE = "explicit-state bounded-exhaustive exploration of the real reader ag
 RULE = ("every sequence of <= 4 members (5 thorough) over kinds {visor file of size 1/511/512/513/4097, visor empty file, "
         "visor directory, ustar directory, ustar file of size 0/1/512/513, long-name visor file, long-name ustar file} x every "
         "permutation of the data areas x alignment {512, 4096, unaligned} x gap policy x {plain, gzip} x trailing padding; "
-        "archives without visor members are also compared with the standard tarfile reader. Oracle: names and types in header "
+        "archives whose member payload is itself a (vm)tar archive at a block-aligned offset, archives followed by left-over "
+        "blocks of another archive; archives without visor members are also compared with the standard tarfile reader. Oracle: names and types in header "
         "order, extractfile(m).read() equals the model bytes. non-trivial = archive with >= 2 visor data areas not laid out in "
         "header order, or mixing visor and ustar members")
 ASSUMPTIONS = [
@@ -50,7 +51,8 @@ HIGH_OFFSETS = [0x7FFF0000, 0x7FFFFC00, 0x80002000, 0x80010000, 0xC0000200, 0xFF
 def run_shard(shard, ctx):
     if shard.get("special"):
         for what in ("duplicate-inline", "duplicate-visor", "two-archives-interleaved", "gzip-multi-member-2", "gzip-multi-member-5",
-                     "gzip-member-boundary-in-header"):
+                     "gzip-member-boundary-in-header", "payload-is-tar-512", "payload-is-tar-4096", "payload-is-vmtar",
+                     "payload-is-tar-gz", "tar-with-leftover-blocks", "vmtar-with-leftover-blocks"):
             run_case({"special": what}, ctx)
         return
     if shard.get("high"):
@@ -133,6 +135,32 @@ def _case_special(case, ctx):
                 img, _ = B.build(members, 512)
                 exp = [(n.rstrip("/"), k in ("vdir", "dir"), (None if k in ("vdir", "dir") else d)) for n, k, d in members]
                 got = _listing(vmtar.open(fileobj=io.BytesIO(img)))
+            elif what.startswith("payload-is-") or what.endswith("leftover-blocks"):
+                # what lies behind the end-of-archive marker is data, whatever it looks like: a member whose payload is itself
+                # an archive (block aligned, so its headers sit where a reader scanning on would look), or left-over blocks
+                inner_members = [("etc/", "dir", b""), ("etc/motd", "ustar", b"INNER motd\n" * 50), ("etc/inner-only", "ustar", b"I" * 600)]
+                if what == "payload-is-vmtar":
+                    inner_members = [("etc/", "vdir", b""), ("etc/motd", "visor", b"INNER motd\n" * 50), ("etc/inner-only", "visor", b"I" * 600)]
+                inner, _ = B.build(inner_members, 512)
+                if what.endswith("leftover-blocks"):
+                    kind = "ustar" if what.startswith("tar") else "visor"
+                    members = [("etc/", "dir" if kind == "ustar" else "vdir", b""), ("etc/motd", kind, b"outer motd\n" * 40),
+                               ("etc/x", kind, b"X" * 513)]
+                    img, _ = B.build(members, 512)
+                    img = img + inner + b"\0" * 1024
+                else:
+                    align = 4096 if what.endswith("4096") else 512
+                    members = [("etc/", "vdir", b""), ("etc/motd", "visor", b"outer motd\n" * 40), ("backup/inner.tar", "visor", inner),
+                               ("etc/u", "ustar", b"U" * 700), ("etc/last", "visor", b"L" * 513)]
+                    img, _ = B.build(members, align, None, 0, what.endswith("gz"))
+                exp = [(n.rstrip("/"), k in ("vdir", "dir"), (None if k in ("vdir", "dir") else d)) for n, k, d in members]
+                t = vmtar.open(fileobj=io.BytesIO(img))
+                got = _listing(t)
+                if got == exp:
+                    # access by name resolves to the archive's own member
+                    byname = t.extractfile(t.getmember("etc/motd")).read()
+                    if byname != members[1][2]:
+                        got = got + [("getmember(etc/motd)", False, byname)]
             elif what == "two-archives-interleaved":
                 # two archives open at the same time that contain identical inline member headers at different positions
                 m1 = [("d/", "vdir", b""), ("d/u", "ustar", b"A" * 600), ("d/v", "visor", b"V" * 513)]
